@@ -5,7 +5,8 @@ import os
 import subprocess
 import sys
 sys.path.insert(0, os.path.dirname(os.path.abspath(__file__)))
-import run_capi  # runners for C15 / C16 (C driver against libkodama.a, both profiles, sanitizers)
+import run_capi
+import run_loc  # runners for C15 / C16 (C driver against libkodama.a, both profiles, sanitizers)
 
 TRUSTED_COMMON = [
     "Lean 4.33.0 kernel; axioms limited to propext, Classical.choice, Quot.sound (audited with #print axioms on every property theorem; no sorry/admit/native_decide/bv_decide/axiom in the import closure)",
@@ -68,7 +69,12 @@ def runner_c17(pid, tier, seed, driver, BUILD, REPO):
 
 
 _p('C17', runner=runner_c17)
-_p('C18')
+_p('C18', runs=[('release', '')], runner=run_loc.runner_c18, trusted_extra=[
+    "C18: rayon's ordered-collect contract (flat_map/map/collect into a Vec concatenates per-split results in range order) is modelled, not verified; observed: saved matrix byte-identical for RAYON_NUM_THREADS in {1,2,3,8,16} x repeats",
+    "C18: csv/serde (record + number parsing), ryu (shortest round-trip printing), clap, byteorder and the file system are not modelled; the runner parses/prints with Python float()/repr and cross-checks against the tool's own matrix file and a direct Rust call of kodama::linkage (loc_ref)",
+    "C18: glibc libm sin/cos/atan and hardware sqrt are shared by the Rust binary and Lean's Float runtime (bit-identical matrices are checked on every run); nothing is proved about haversine's accuracy",
+    "C18: the Word64 laws from_bits(to_bits x) = x and to_bits x < 2^64 are hypotheses of C18_save_load (not provable for Lean's opaque Float); observed by save -> load runs",
+])
 _p('C19')
 _p('C20')
 
@@ -135,6 +141,9 @@ def evidence(pid, tier, seed, pr, sessions, wall, violations, known_hits):
 def replay(pid, path, exe, driver):
     if pid in ('C15', 'C16'):
         return run_capi.replay(pid, path, driver)
+    if pid == 'C18':
+        root = os.path.dirname(os.path.dirname(os.path.abspath(__file__)))
+        return run_loc.replay_c18(path, driver, os.path.join(root, 'build'), os.environ.get('VERIF_REPO', '/repo'))
     cmd = [exe, pid, '--replay', path, '--driver', driver or 'none']
     p = subprocess.run(cmd)
     return p.returncode
